@@ -7,8 +7,12 @@
 //@ item const PAGE_SIZE
 //@ item const PAGE_MASK
 //@ item enum MemoryCell
-//@ item struct Page
-//@ item struct Memory
+//@ itemx struct Page
+//@ rewrite 1 `pub(crate) cells` => `pub cells` ## R-vis: field visibility widened (the automatic rule only adds `pub` to private fields); needed because Verus treats a datatype with a crate-visible field as opaque in `pub open spec fn`s; no executable change
+//@ end
+//@ itemx struct Memory
+//@ rewrite 1 `pub(crate) pages` => `pub pages` ## R-vis: field visibility widened (see Page); no executable change
+//@ end
 
 /// "`==` on V decides equality of values" (trait law of Value, see lemma_eq_law)
 pub open spec fn value_eq_law<V: Value>() -> bool {
@@ -25,10 +29,7 @@ pub proof fn lemma_value_laws_hold<V: Value>()
 {
     assert forall|a: V, b: V| #[trigger] a.eq_spec(&b) == (a == b) by { V::lemma_eq_law(a, b); }
     assert forall|a: V, b: V| #[trigger] cloned(a, b) implies a == b by { V::lemma_clone_law(a, b); }
-    if exists|a: V| true {
-        let a = choose|a: V| true;
-        V::lemma_eq_law(a, a);
-    }
+    V::lemma_obeys_eq_law();
 }
 
 // derive(Clone) of Page<V> { cells: Vec<Option<MemoryCell<V>>>, permissions: Option<MemoryPermissions> }:
